@@ -38,7 +38,7 @@ def register(R):
               "subsample": "Int", "rates_tracked": "Const[('tpr', 'tnr', 'ppv', 'npv')]", "parallelize": "Bool", "round_val": "Int",
               "all_drift_states": "List[OptStr]", "_p_table": IMAPR, "_r_stat": IMAPR, "_warning_states": IMAPB,
               "_alarm_states": IMAPB, "_denominators": "Dict[tpr_N:Int,tnr_N:Int,ppv_N:Int,npv_N:Int]",
-              "_bounds": "Opaque[BoundsCache]",
+              "_bounds": "AnyDictOf[AnyDictOf[Dict[lb_warn:Real,ub_warn:Real,lb_detect:Real,ub_detect:Real]]]",
               "_confusion": "ListN[ListN[Int,Int],ListN[Int,Int]]", "_retraining_recs": "Pair[Opt[Int]]"})
     R.klass(Q, fields=f, ghost={"first_warn": "Opt[Int]"}, ghost_init=["self.ghost.first_warn = None"],
             invariant=STREAM_INV + [
@@ -66,11 +66,20 @@ def register(R):
     R.contract(Q + "._get_four_denominators", tags=("C06",), params={"confusion": "ListN[ListN[Int,Int],ListN[Int,Int]]"},
                ensures=["result['tpr_N'] == confusion[1][1] + confusion[0][1]", "result['tnr_N'] == confusion[0][0] + confusion[1][0]",
                         "result['ppv_N'] == confusion[1][0] + confusion[1][1]", "result['npv_N'] == confusion[0][0] + confusion[0][1]"])
-    # ASSUMED: returns some bounds record; may extend the cache
+    # returns some bounds record; may extend the cache, touches nothing else.  Verified with the cache as an opaque
+    # dictionary (every read yields an arbitrary value, writes are dropped: an over-approximation) and _sim_bounds through its
+    # contract; WHICH record comes back (cached under the rounded key, or freshly simulated) is decided by the bounded tier
     R.contract(Q + "._update_bounds_dict", tags=("C06",), modular=True,
                params={"est_rate": "Real", "curr_denom": "Int", "r_est_rate": "Real", "r_curr_denom": "Int"},
                result="Dict[lb_warn:Real,ub_warn:Real,lb_detect:Real,ub_detect:Real]",
                ensures=[], modifies=["_bounds"], check_invariant=False)
+    # the Monte-Carlo simulation (from the assignment of exps to that of result_vector) is abstracted - its statements are not
+    # verified; the four np.percentile calls and the returned record are: a record of four reals, nothing modified
+    R.contract(Q + "._sim_bounds", tags=("C06",), modular=True, params={"est_rate": "Real", "denom": "Int"},
+               result="Dict[lb_warn:Real,ub_warn:Real,lb_detect:Real,ub_detect:Real]",
+               ensures=["result['lb_warn'] == result['lb_warn'] and result['ub_detect'] == result['ub_detect']", "unchanged(self)"],
+               modifies=[], check_invariant=False,
+               abstract_blocks=[{"from": "exps", "to": "result_vector", "types": {"result_vector": "AnyList"}}])
 
     def update_contract(suffix, tracked):
         ens = [
